@@ -316,3 +316,45 @@ def _install_generators():
 
 
 _install_generators()
+
+
+# ---- constructors: the composite starts with exactly the given children, in order, and reports their total demand --------------------------
+from pyvc.values import VTuple as _VT
+
+
+def _sym_child7(ctx, k):
+    sv = ctx.typed(z3.Const("p_children_child%d" % k, Z.Val), Child)
+    ctx.assume(z3.And(Z.Val.id(sv.t) > 0, Z.Val.id(sv.t) < ctx.alloc0))
+    ctx.assume_class(sv.t, Child)
+    ctx.touch(sv)
+    return sv
+
+
+def _mk_composite_init(cls_key, shape, n, weighted):
+    class init:
+        __doc__ = ("constructed with %d child pool(s): `children` is a NEW list of exactly these pools in the given order, and the composite's demand is the sum of "
+                   "theirs%s" % (n, "; the weight attribute is the one asked for (an unknown one is refused)" if weighted else ""))
+        body_key = cls_key + ".__init__"
+        new_object = "self"
+        params = dict({"self": shape, "*children": lambda ctx: _VT([_sym_child7(ctx, k) for k in range(n)])}, **({"weight": TStr()} if weighted else {}))
+
+        def writes(c, self, children, **kw):
+            return [(self, f) for f in ("_demand", "children", "_weight")]
+
+        def ensures(c, self, children, **kw):
+            kids = self.children
+            out = {"children-are-exactly-the-given-pools-in-order": c.And(kids.len == n, Z.Val.id(kids.t) >= c.ctx.alloc0, *[kids[k].t == children[k].t for k in range(n)]),
+                   "demand-is-the-sum-of-the-childrens": self._demand.r == sum([children[k].demand.r for k in range(n)], z3.RealVal(0))}
+            if weighted:
+                w = Z.Val.s(kw["weight"].t)
+                out["weight-is-the-one-asked-for-and-a-known-one"] = c.And(self._weight.t == kw["weight"].t, c.Or(*[w == z3.StringVal(x) for x in ("supply", "utilisation", "allocation")]))
+            return out
+
+        raises = {"AssertionError": (lambda c, self, children, exc, **kw: c.Not(c.Or(*[Z.Val.s(kw["weight"].t) == z3.StringVal(x) for x in ("supply", "utilisation", "allocation")]))) if weighted
+                  else (lambda c, self, children, exc, **kw: False)}
+    return init
+
+
+for _n in (0, 1, 3):
+    contract(UNI + ":UniformComposite.__init__#children(%d)" % _n, props=["C07"])(_mk_composite_init(UNI + ":UniformComposite", Uni, _n, False))
+    contract(WGT + ":WeightedComposite.__init__#children(%d)" % _n, props=["C07"])(_mk_composite_init(WGT + ":WeightedComposite", Wgt, _n, True))
